@@ -524,3 +524,64 @@ func (w *World) postRelease() {
 		w.yield(&op{kind: opNop, name: "post-release", eff: func() { w.cur.hash = mix(w.cur.hash, 0x9057) }})
 	}
 }
+
+// ---- peeks for invariants (no scheduling point; harness/oracle use only) ---------------------------
+
+// PeekLen is the number of buffered elements of ch.
+func PeekLen[T any](ch <-chan T) int {
+	w := W
+	if w == nil {
+		return len(ch)
+	}
+	c := w.chans[chanID(ch)]
+	if c == nil {
+		return 0
+	}
+	return len(c.buf)
+}
+
+// PeekClosed tells whether ch is closed.
+func PeekClosed[T any](ch <-chan T) bool {
+	w := W
+	id := chanID(ch)
+	if id == 0 {
+		return false
+	}
+	if w == nil {
+		nativeClosedMu.Lock()
+		defer nativeClosedMu.Unlock()
+		_, ok := nativeClosed[id]
+		return ok
+	}
+	return w.vc(ch, id, cap(ch)).closed
+}
+
+// PeekSenders is the number of goroutines blocked in a send (or select send case) on ch.
+func PeekSenders[T any](ch <-chan T) int {
+	w := W
+	if w == nil {
+		return 0
+	}
+	c := w.chans[chanID(ch)]
+	if c == nil {
+		return 0
+	}
+	n := 0
+	for _, g := range w.gs {
+		if g.done || g.pending == nil {
+			continue
+		}
+		o := g.pending
+		if o.kind == opSend && o.ch == c {
+			n++
+		} else if o.kind == opSelect {
+			for _, sc := range o.cases {
+				if sc.send && sc.ch == c {
+					n++
+					break
+				}
+			}
+		}
+	}
+	return n
+}
